@@ -424,4 +424,5 @@ pub fn catalogue() -> Vec<Spec> {
     ]
 }
 
-pub const QUICK: [&str; 3] = ["bb1-arith", "bb4-recompose", "bb4-challenger"];
+/// Circuits of the quick tier, cheapest first (the budget cuts from the end).
+pub const QUICK: [&str; 5] = ["bb1-arith", "bb4-recompose", "bb4-challenger", "bb1-bits", "bb4-merkle"];
